@@ -281,7 +281,13 @@ def run_model(prop, cases, wd, tag='cases', shard=250, impl=None):
             return k, None, 'expected %d values, got %d\n%s' % (len(shards[k]), len(vals), out[:2000])
         return k, vals, out
 
-    with ThreadPoolExecutor(max_workers=16) as ex:
+    # 16 parallel coqc on an idle machine; fewer when the machine is already loaded (several checks running at once)
+    try:
+        load = os.getloadavg()[0]
+    except OSError:
+        load = 0.0
+    workers = int(os.environ.get('VERIF_JOBS') or (16 if load < 20 else 6 if load < 48 else 3))
+    with ThreadPoolExecutor(max_workers=max(1, workers)) as ex:
         for k, vals, out in ex.map(one, range(len(shards))):
             if vals is None:
                 for i, _ in shards[k]:
